@@ -710,9 +710,9 @@ class Engine:
         cur = self.current
         if cur is None or not cur.loops:
             return None
-        if fr.fn is not self.current_fn:
-            return None
         key = self.loop_key(it, node, fr)
+        if fr.fn is not self.current_fn and key not in cur.loops:
+            return None
         sp = cur.loops.get(key)
         if sp is not None:
             self.current_report.loops_used.add(key)
@@ -795,7 +795,9 @@ class Engine:
                 fr.locals[nme] = self.fresh_like(ctx, fr.locals[nme], nme)
         for obj_attr, shape in spec.get("havoc_fields", {}).items():
             parts = obj_attr.split(".")
-            ref = fr.locals[parts[0]] if parts[0] in fr.locals else ctx.ghost[parts[0]]
+            ef_ = getattr(self, "entry_frame", None)
+            ref = (fr.locals[parts[0]] if parts[0] in fr.locals else
+                   ef_.locals[parts[0]] if ef_ is not None and parts[0] in ef_.locals else ctx.ghost[parts[0]])
             for p in parts[1:-1]:
                 ref = ref.val if isinstance(ref, VOpt) else ref
                 ref = ctx.heap[ref.addr].fields[p]
@@ -846,7 +848,14 @@ class Engine:
     def spec_frame(self, fr):
         """Frame in which loop invariants are evaluated: the function's locals + spec vocabulary."""
         cm = self.contract_module(self.current)
-        sfr = Frame(cm, dict(fr.locals), closure=None)
+        sfr = Frame(cm, {}, closure=None)
+        ef = getattr(self, "entry_frame", None)
+        if ef is not None and ef is not fr:
+            # inside an inlined callee: the contract's aliases / ghost variables stay visible
+            for nme in list(getattr(self.current, "aliases", {})) + list(getattr(self, "spec_locals", {})):
+                if nme in ef.locals:
+                    sfr.locals[nme] = ef.locals[nme]
+        sfr.locals.update(fr.locals)
         sfr.is_spec_root = True
         sfr.locals.update(self.ctx_now.ghost)
         return sfr
